@@ -2,10 +2,15 @@
 # Regression over the seeded changes WITHOUT touching /repo: a scratch worktree of /repo's HEAD and a scratch copy of
 # the harness (pointed at that worktree) under /dev/shm, one seeded change applied at a time there.
 # Prints one line per change: DETECTED / MISSED, like run_seeded.sh. Removes everything it created.
-# usage: run_seeded_scratch.sh [-t tier] [seeded-id ...]     (default: all of /verif/seeded/*)
+# usage: run_seeded_scratch.sh [-t tier] [-s VERIF_SEED] [seeded-id ...]     (default: all of /verif/seeded/*)
 HERE="$(cd "$(dirname "$0")/.." && pwd)"
 TIER=quick
-if [ "$1" = "-t" ]; then TIER="$2"; shift 2; fi
+SEED=""
+while [ "$1" = "-t" ] || [ "$1" = "-s" ]; do
+  if [ "$1" = "-t" ]; then TIER="$2"; else SEED="$2"; fi
+  shift 2
+done
+[ -n "$SEED" ] && export VERIF_SEED="$SEED"
 IDS="$*"; [ -z "$IDS" ] && IDS="$(ls "$HERE/seeded")"
 BASE=/dev/shm; [ -d "$BASE" ] || BASE="${TMPDIR:-/tmp}"
 W="$BASE/vseed-$$"
